@@ -297,11 +297,11 @@ def r01_5(ctx, m):
     mm = norm(it.args[0])
     src_list = mm[4:].split(")")[0] if mm.startswith("len(") else None
     ok_range = mm == f"len({src_list}) - 1"
-    local = {}
-    for st in loop.body:
-        if isinstance(st, ast.Assign) and isinstance(st.targets[0], ast.Name):
-            local[st.targets[0].id] = norm(st.value)
-    args = [local.get(norm(a), norm(a)) for a in call.args]
+    from ..core import local_defs, resolve_expr
+
+    ldefs = local_defs(ast.Module(body=loop.body, type_ignores=[]))
+    local = {k: norm(v[0]) for k, v in ldefs.items() if len(v) == 1 and v[0] is not None}
+    args = [resolve_expr(None, a, defs=ldefs) for a in call.args]
     # accumulator: list initialised [src[0]] before the loop
     acc = None
     for st in f.node.body:
@@ -537,8 +537,24 @@ def r01_46_stable(ctx, m):
         for e in p.events:
             if e.kind == "test":
                 t, tp = canon_test(e.node, e.pol)
-                if "len(" in t and "== 1" in t and " in " in t:
-                    single = tp
+                a_len = a_ref = None
+                for sub in ast.walk(e.node):
+                    if isinstance(sub, ast.Compare):
+                        st_, _ = canon_test(sub, True)
+                        if st_.startswith("len(") and st_.endswith("== 1"):
+                            a_len = st_
+                        if ".contig_id in " in st_:
+                            a_ref = st_
+                if a_len and a_ref:
+                    from ..core import bool_table
+
+                    tb = bool_table(e.node, [a_len, a_ref])
+                    if tb is not None:
+                        conj = {k: (k[0] and k[1]) for k in tb}
+                        if tb == conj:
+                            single = e.pol
+                        elif tb == {k: not v for k, v in conj.items()}:
+                            single = not e.pol
                 if t.endswith("[1] == '<'"):
                     reverse = tp
                 if t.endswith("[1] == '>'"):
@@ -593,8 +609,14 @@ def r01_46_stable(ctx, m):
     conds = [e.node for p, _ in out for e in p.events if e.kind == "test" and "len(" in norm(e.node) and " in " in norm(e.node)]
     if conds:
         t = norm(conds[0])
-        ok = "== 1" in t and ".contig_id in ref_contig" in t.replace(f.params[2] if len(f.params) > 2 else "ref_contig", "ref_contig")
-        ctx.check(ok, "R01.4", f.where(conds[0]), "the path collapses to a bare contig name only for a single run on a rank-0 contig", key_of(f, f"collapse-cond:{t}"), condition=t)
+        ref_param = f.params[2] if len(f.params) > 2 else "ref_contig"
+        atoms = []
+        for sub in ast.walk(conds[0]):
+            if isinstance(sub, ast.Compare):
+                st_, _ = canon_test(sub, True)
+                atoms.append(st_)
+        ok = any(a.startswith("len(") and a.endswith("== 1") for a in atoms) and any(a.endswith(f".contig_id in {ref_param}") for a in atoms) and len(atoms) == 2 and kinds >= {"single-fwd", "single-rev", "multi"}
+        ctx.check(ok, "R01.4", f.where(conds[0]), "the path collapses to a bare contig name only for a single run on a rank-0 contig", key_of(f, f"collapse-cond:{sorted(atoms)}"), condition=t)
 
 
 def r01_46_unstable(ctx, m):
